@@ -53,4 +53,12 @@ CHECKS = {
         text="At every lattice point F_ref(z_out)=u is checked against an independent four-corner blend and piecewise-linear CDF read straight from the HDF5 files, plus range, monotonicity in u, clamps, rejection of out-of-range energies and explicit-u == single-event == internal-generator equivalence.",
         note="u restricted to the row's open CDF range with a 2e-15 guard band at the top (the property's own quantifier); nothing is claimed between lattice points",
     ),
+    "C15": dict(
+        engine="E1-lattice",
+        level="exploration",
+        design_ref="DESIGN.md §3 C15",
+        technique="deviation-bounded exhaustive enumeration: all single-field (quick) and pairwise (thorough) deviations from 6 base variants over per-field value alphabets through create_toml/config_from_toml; full product field x unit spelling x value form x value for the unit clause; band and month alphabets",
+        text="Every deviation within the bound is written to a real TOML file and read back and compared field by field (exact; angles to 4 ulp); every (field, unit, form, value) is compared with astropy's own conversion; rejection alphabets must raise.",
+        note="None sub-models outside the alphabet; astropy unit conversion is the stated oracle for the unit clause",
+    ),
 }
